@@ -131,7 +131,11 @@ C01_GlobalCases ==
       preds == { <<>>, PredLenAtLeast(2), PredIsAB, PredNot(PredIsAB) }
       uses  == { <<Ref("p")>>, <<Ref("p"), Ref("p")>>, <<Lb, Ref("p")>>, <<Ref("p"), La>>,
                  <<Loop(1, -1, FALSE, Ref("p"))>>, <<Or(Ref("p"), Lb)>>, <<Loop(0, 1, TRUE, Ref("p")), Lb>> }
+      inner == { <<La>>, <<Or(La, Lb)>>, <<Loop(1, -1, FALSE, La)>>, <<NotIn(<<Lb>>)>> }
+      outer == { <<Ref("q"), Lb, Ref("q")>>, <<Ref("q"), Ref("q")>>, <<Loop(1, 2, FALSE, Ref("q")), Lc>>, <<Or(Ref("q"), Lc)>> }
   IN { [defs |-> <<GDef("p", es, pr)>>, body |-> u] : es \in pats, pr \in preds, u \in uses }
+     \cup { [defs |-> <<GDef("q", i, <<>>), GDef("p", o, pr)>>, body |-> u] :
+             i \in inner, o \in outer, pr \in {<<>>, PredLenAtLeast(2)}, u \in {<<Ref("p")>>, <<Ref("p"), Ref("p")>>, <<La, Ref("p")>>, <<Ref("q"), Ref("p")>>} }
 
 
 (* -------------------------------------------------- class and anchor tables *)
@@ -272,6 +276,9 @@ C09_Bodies ==
     <<Lb, Cap("x", Grp(<<Loop(0, -1, FALSE, La)>>)), Ref("x")>>,
     <<Loop(0, -1, FALSE, Grp(<<NullCap, Ref("x")>>))>>, <<Loop(1, -1, FALSE, Grp(<<NullCap, Ref("x"), Lb>>))>>,
     <<Sub("s", <<Loop(0, 1, FALSE, La)>>), Ref("s"), Ref("s")>>,
+    \* a name that may be unbound when it is used
+    <<Loop(0, 1, FALSE, Cap("x", La)), Lb, Ref("x")>>, <<Loop(0, -1, FALSE, Cap("x", La)), Ref("x")>>,
+    <<Or(Grp(<<Cap("x", La)>>), Grp(<<Lb>>)), Ref("x")>>, <<Loop(0, 1, TRUE, Cap("x", Cls("any"))), Ref("x"), Ref("x")>>,
     <<Lit(<<>>)>>, <<La, Lit(<<>>)>>, <<Lit(<<>>), La>>, <<NotIn(<<Lit(<<>>)>>)>>, <<In(<<Lit(<<>>), La>>)>>, <<Cap("x", Lit(<<>>)), Ref("x")>>,
     <<NotIn(<<Lab>>)>>, <<La, NotIn(<<Lab, Lb>>)>>, <<In(<<Rng(<<ba>>, <<ba, bb>>)>>)>>, <<NotLit(<<ba, bb>>)>>, <<La, NotLit(<<ba, bb>>)>>,
     <<In(<<Rng(<<bb>>, <<ba>>)>>)>>, <<NotIn(<<Rng(<<ba>>, <<ba, bb>>)>>)>> }
